@@ -357,20 +357,33 @@ def allPaths (T : Table) : List (List CStep) := T.connectOk :: (T.connectFail ++
 
 def locOutcomes : List LocOutcome := [.found 0, .found 1, .found 2, .raises 0, .raises 1]
 
-/-- the calls the theorems quantify over.  `facadeRaises` only matters after a completed handshake; `async_connect` is
-`async_locate_spas` followed by `SPA_NOT_FOUND` or `async_connect_to_spa`, so a representative of each shape is listed. -/
+/-- the calls the theorems quantify over (`facadeRaises` only matters after a completed handshake) -/
 def allBase (T : Table) : List Base :=
   [.enter, .exit] ++ locOutcomes.map .locate
   ++ (allPaths T).map (fun p => .connectTo p false) ++ [.connectTo T.connectOk true]
-  ++ [.asyncConnect (.found 0) T.connectOk false, .asyncConnect (.found 1) T.connectOk false,
-      .asyncConnect (.found 1) T.connectOk true, .asyncConnect (.found 1) (T.connectFail.headD []) false,
-      .asyncConnect (.found 1) [.raise_] false, .asyncConnect (.raises 0) T.connectOk false]
+  ++ (allPaths T).map (fun p => .asyncConnect (.found 1) p false) ++ [.asyncConnect (.found 1) T.connectOk true]
+  ++ [.asyncConnect (.found 0) T.connectOk false, .asyncConnect (.found 2) T.connectOk false,
+      .asyncConnect (.raises 0) T.connectOk false, .asyncConnect (.raises 1) T.connectOk false]
   ++ T.runtimeEvents.map .ev
   ++ [.pingMiss false, .pingMiss true, .rfErr false, .rfErr true, .wcErr true, .wcErr false, .reset]
   ++ [.setSpaInfo true true, .setSpaInfo true false, .setSpaInfo false true, .setSpaInfo false false]
 
 def init (T : Table) (ident name : Bool) : M :=
   ⟨T.initialState, false, false, false, false, ident, name, false, false, false, none, .none⟩
+
+/-- which calls can happen in which state.  Locate and connect are driven by `_sequence_pump` (or by a client following
+the same protocol): locate when IDLE without descriptors, connect when LOCATED_SPAS without a facade (`async_connect`
+also needs the identifier).  Run-time events are raised by the tasks of a live spa object.  Reset, set-spa-info and the
+enter/exit events can happen at any time. -/
+def enabled (m : M) : Base → Bool
+  | .locate _ => m.state == .IDLE && !m.desc
+  | .connectTo _ _ => m.state == .LOCATED_SPAS && !m.facade
+  | .asyncConnect _ _ _ => m.state == .LOCATED_SPAS && !m.facade && m.ident
+  | .ev _ => m.spa
+  | .pingMiss _ => m.spa
+  | .rfErr _ => m.spa
+  | .wcErr _ => m.spa
+  | _ => true
 
 /-- the manager as constructed (`__init__`), for each way the identifier / name kwargs can be given -/
 def inits (T : Table) : List M := [init T true false, init T true true, init T false false, init T false true]
